@@ -18,6 +18,7 @@ mod node;
 mod props;
 mod report;
 mod rng;
+mod walletlab;
 
 #[global_allocator]
 static GLOBAL: alloc_track::Tracking = alloc_track::Tracking;
@@ -48,6 +49,11 @@ fn install_panic_hook() {
 
 fn main() {
   let args: Vec<String> = std::env::args().collect();
+  // re-executed under the name `ord`: be the real command line
+  if std::path::Path::new(&args[0]).file_name().and_then(|n| n.to_str()) == Some("ord") {
+    ord::main();
+    return;
+  }
   if args.len() < 2 {
     eprintln!("usage: harness <property> [--seed N --shard K --nshards N --tier quick|thorough --budget-ms N --case N --out FILE]");
     std::process::exit(3);
@@ -78,6 +84,7 @@ fn main() {
     "C18" => props::c18::run(&ctx, &mut rep),
     "C19" => props::c19::run(&ctx, &mut rep),
     "C20" => props::c20::run(&ctx, &mut rep),
+    "C23" => props::c23::run(&ctx, &mut rep),
     "C27" => props::c27::run(&ctx, &mut rep),
     "C28" => props::c28::run(&ctx, &mut rep),
     "C35" => props::c35::run(&ctx, &mut rep),
